@@ -34,10 +34,19 @@ constexpr auto tgamma_check(T const x) noexcept -> T
         is_nan(x) ? etl::numeric_limits<T>::quiet_NaN() :
                   // indistinguishable from one or zero
             etl::numeric_limits<T>::epsilon() > abs(x - T(1)) ? T(1)
-        : etl::numeric_limits<T>::epsilon() > abs(x)          ? etl::numeric_limits<T>::infinity()
+                                                              // gamma(x) = 1/x - 0.577... near zero (pole at +-0)
+        : etl::numeric_limits<T>::epsilon() > abs(x)          ? T(1) / x
                                                               :
-                                                     // negative numbers
-            x < T(0) ? // check for integer
+                                                     // every value of this magnitude is a negative integer (pole);
+                                                     // also -infinity. (The recursion below would never end.)
+            x <= -T(1) / etl::numeric_limits<T>::epsilon() ? etl::numeric_limits<T>::quiet_NaN()
+                                                          :
+                                                          // underflows in every format; bounds the recursion depth
+            x < -T(2000) ? (x == trunc(x) ? etl::numeric_limits<T>::quiet_NaN() : T(0))
+                         :
+                         // negative numbers, and (0, 1) where exp(lgamma(x)) loses accuracy:
+                         // gamma(x) = gamma(x + 1) / x
+            x < T(1) ? // check for integer
             etl::numeric_limits<T>::epsilon() > abs(x - find_whole(x)) ? etl::numeric_limits<T>::quiet_NaN() :
                                                                        // else
                 tgamma_check(x + T(1)) / x
